@@ -18,7 +18,6 @@ import (
 
 const blobTypeOSMHeader = "OSMHeader"
 const blobTypeOSMData = "OSMData"
-const blobTypeDone = "Done"
 const elementsPerGroup = 8000
 
 type Emit func(e Element) error
@@ -139,9 +138,10 @@ func ReadPBFWithOptions(r io.Reader, emit EmitWithGoroutine, options ReadOptions
 	wg.Add(cores + 1)
 	go func() {
 		readBlobErr = readBlobs(r, c, ctx)
-		for i := 0; i < cores; i++ {
-			c <- &blob{Type: blobTypeDone}
-		}
+		// Closing the channel ends every decoder that's still receiving.
+		// Sending each of them a sentinel blob blocked forever when they
+		// had already stopped after a cancellation and the channel was full.
+		close(c)
 		wg.Done()
 	}()
 	var readOSMDataErr error
@@ -155,14 +155,15 @@ func ReadPBFWithOptions(r io.Reader, emit EmitWithGoroutine, options ReadOptions
 				select {
 				case <-ctx.Done():
 					return
-				case b := <-c:
+				case b, ok := <-c:
+					if !ok {
+						return
+					}
 					if b.Type == blobTypeOSMData {
 						if err := readOSMDataBlob(b, f, options); err != nil {
 							readOSMDataErr = err
 							cancel()
 						}
-					} else if b.Type == blobTypeDone {
-						return
 					}
 				}
 			}
@@ -170,7 +171,6 @@ func ReadPBFWithOptions(r io.Reader, emit EmitWithGoroutine, options ReadOptions
 	}
 	wg.Wait()
 	cancel()
-	close(c)
 	if readBlobErr != nil && readBlobErr != context.Canceled {
 		return readBlobErr
 	}
